@@ -9,7 +9,7 @@ from .common import mk_container
 
 PROPERTY = 'C05'
 BOUNDS = ("Container.create_solution with 1-2 (thorough: 3) solutes out of {NaCl, Na2SO4, DMSO, lipase}, solvent = water, "
-          "DMSO, or a container holding water+triethylamine (symbolic amounts); any two of concentration / quantity / total "
+          "DMSO, or a container holding water+triethylamine or water+NaCl+amylase (symbolic amounts); any two of concentration / quantity / total "
           "quantity; scalar and per-solute lists (also with different units per solute); concentration spellings M, m, "
           "g/L, mg/g, mol/mol, mL/L, umol/mL, mmol/kg, %w/w, %w/v, %v/v, U/mL, U/g, kU/L, g/mol; quantity units g, mg, mL, "
           "mmol, U; total in mL, g, mol. Every value symbolic (concentrations in [1e-6, 1e4], quantities in [1e-6, 1e5]) "
@@ -22,6 +22,7 @@ ASSUMPTIONS = ["numpy.linalg.solve replaced by: singular -> LinAlgError, otherwi
 EXPECT_OUTCOMES = ['ok', 'refused']
 
 CONTAINER_SOLVENT = ['water', 'triethylamine']
+BRINE_SOLVENT = ['water', 'NaCl', 'amylase']          # a liquid, a dissolved solid and an enzyme
 
 
 def _cell(i, solutes, solvent, given, cu=None, qu=None, tu=None, **kw):
@@ -74,6 +75,13 @@ def cells(tier, seed):
             out.append(_cell(i, pair, solvent, ['quantity', 'total_quantity'], qu=qu2, tu='mL')); i += 1
             out.append(_cell(i, pair, solvent, ['quantity', 'total_quantity'], qu='mg', tu='g')); i += 1
     out.append(_cell(i, ['NaCl', 'Na2SO4'], 'water', ['concentration', 'quantity'], cu='M', qu='g')); i += 1
+    # over-determined with independent values per solute (both directions of an inconsistent quantity are reachable)
+    out.append(_cell(i, ['NaCl', 'Na2SO4'], 'water', ['concentration', 'quantity'], cu=['M', 'M'], qu=['g', 'g'])); i += 1
+    out.append(_cell(i, ['Na2SO4', 'NaCl'], 'container', ['concentration', 'quantity'], cu=['mg/g', 'mg/g'], qu=['mg', 'mg'])); i += 1
+    # a solvent container that holds a dissolved solid (brine) / an enzyme
+    for sol, cu, tu in [(['DMSO'], 'M', 'mL'), (['DMSO'], 'mg/g', 'g'), (['DMSO'], 'mmol/kg', 'g'), (['lipase'], 'U/mL', 'mL')]:
+        out.append(_cell(i, sol, 'brine', ['concentration', 'total_quantity'], cu=cu, tu=tu)); i += 1
+    out.append(_cell(i, ['DMSO'], 'brine', ['quantity', 'total_quantity'], qu='g', tu='g')); i += 1
     # per-solute concentrations that share a numerator (or a denominator) unit but not both
     for solvent in (['DMSO'] if tier == 'quick' else ['DMSO', 'water', 'container']):
         for cu2 in [['M', 'm'], ['m', 'M'], ['mg/g', 'g/L'], ['M', 'mol/mol'], ['g/L', 'M']]:
@@ -125,12 +133,13 @@ def h_solution(h):
     C = h.env.Container
     solutes_n = p['solutes']
     n = len(solutes_n)
-    container_solvent = p['solvent'] == 'container'
-    names = set(solutes_n) | (set(CONTAINER_SOLVENT) if container_solvent else {p['solvent']})
+    container_solvent = p['solvent'] in ('container', 'brine')
+    comp_names = BRINE_SOLVENT if p['solvent'] == 'brine' else CONTAINER_SOLVENT
+    names = set(solutes_n) | (set(comp_names) if container_solvent else {p['solvent']})
     lib = Lib(h, names)
     solutes = [lib[s] for s in solutes_n]
     if container_solvent:
-        solv = mk_container(h, lib, 'solv', CONTAINER_SOLVENT, lo=1, hi=10**6)
+        solv = mk_container(h, lib, 'solv', comp_names, lo=10**3, hi=10**6)
         solv_comp = dict(solv.contents)
         solvent_arg = solv
     else:
@@ -211,7 +220,7 @@ def h_solution(h):
         h.outcome = 'refused'
         if overdetermined:
             return       # refusal of an inconsistent over-determined request is always justified for generic values
-        h.require('refusal-justified', no_positive | not_enough,
+        h.require('refusal-justified', no_positive | not_enough, companion=False,
                   detail="the request has a unique mixture with all amounts positive, yet it was refused")
         return
     h.outcome = 'ok'
@@ -220,7 +229,8 @@ def h_solution(h):
     else:
         rest, sol = None, res
     if not overdetermined:
-        h.require('acceptance-justified', positive & enough, detail="no positive mixture satisfies the request, yet one was returned")
+        h.require('acceptance-justified', positive & enough, companion=False,
+                  detail="no positive mixture satisfies the request, yet one was returned")
     # ---- the result itself
     expected_keys = set(solutes) | set(solv_comp)
     h.require('keys', h.true(set(sol.contents) == expected_keys),
@@ -228,23 +238,30 @@ def h_solution(h):
     for s, a in sol.contents.items():
         h.require('amount>0', h.gt(a, 0), detail=f"{s.name} must be present in a positive amount")
     resid = Fr(2, 10**6) if overdetermined else 0
+    # a container solvent is reduced to a pseudo substance whose molar mass uses the container's moles *rounded to
+    # 10^-p mol* and its volume rounded to 10^-p mL: relative error ulp / (moles in mol) resp. ulp / mL (native / delta only)
+    if container_solvent:
+        mol_total = lib.total(solv_comp, 'mol')
+        rel = h.rs(4 * h.ulp / mol_total + 4 * h.ulp / (lib.total(solv_comp, 'L') * 1000))
+    else:
+        rel = 0
     for (kind, i, unit) in row_labels:
         if kind == 'concentration':
             nb, db, scale = conc_def(h, unit)
             num = lib.amount(solutes[i], sol.contents.get(solutes[i], 0), nb)
             den = lib.total(sol.contents, db)
             cval = cvals[i]
-            h.require('concentration-met', h.eq(num * scale, cval * den, h.rs(8 * h.ulp * scale * (1 + den)) + resid * scale),
+            h.require('concentration-met', h.eq(num * scale, cval * den, h.rs(8 * h.ulp * scale * (1 + den)) + resid * scale + rel * cval * den),
                       region=unit, detail=f"{solutes_n[i]} at the stated concentration in {unit}")
         elif kind == 'quantity':
             pf, qb = split_unit(unit)
             got = lib.amount(solutes[i], sol.contents.get(solutes[i], 0), qb)
-            h.require('quantity-met', h.eq(got, qvals[i] * PREFIX[pf], h.rs(4 * h.ulp * lib.amount(solutes[i], Fr(1), qb)) + resid),
+            h.require('quantity-met', h.eq(got, qvals[i] * PREFIX[pf], h.rs(4 * h.ulp * lib.amount(solutes[i], Fr(1), qb)) + resid + rel * got),
                       region=unit, detail=f"{solutes_n[i]} in the stated quantity ({unit})")
         else:
             pf, tb = split_unit(unit)
             tot = lib.total(sol.contents, tb)
-            h.require('total-met', h.eq(tot, T * PREFIX[pf], h.rs(8 * h.ulp * (1 + tot)) + resid), region=unit,
+            h.require('total-met', h.eq(tot, T * PREFIX[pf], h.rs(8 * h.ulp * (1 + tot)) + resid + rel * tot), region=unit,
                       detail=f"total quantity in {unit}")
     if container_solvent:
         # solvent part is a uniform aliquot of the container; nothing is lost
